@@ -45,6 +45,25 @@ pub fn set_case_bytes(check: &'static str, name: &'static str, input: &[u8], sch
     CASE_IS_BYTES.store(1, Ordering::Relaxed);
     HEARTBEAT.fetch_add(1, Ordering::Relaxed);
 }
+pub type CaseFmt = fn(&[u8], &[i64]) -> (String, String, Vec<String>);
+pub struct CaseRaw {
+    pub fmt: Option<CaseFmt>,
+    pub bytes: Vec<u8>,
+    pub nums: Vec<i64>,
+}
+static CASE_RAW: std::sync::Mutex<CaseRaw> = std::sync::Mutex::new(CaseRaw { fmt: None, bytes: Vec::new(), nums: Vec::new() });
+/// cheap record for suites with millions of cases: raw bytes and numbers, turned into (check, description, replay arguments) by `fmt` only when needed
+pub fn set_case_raw(fmt: CaseFmt, bytes: &[u8], nums: &[i64]) {
+    if let Ok(mut g) = CASE_RAW.lock() {
+        g.fmt = Some(fmt);
+        g.bytes.clear();
+        g.bytes.extend_from_slice(bytes);
+        g.nums.clear();
+        g.nums.extend_from_slice(nums);
+    }
+    CASE_IS_BYTES.store(2, Ordering::Relaxed);
+    HEARTBEAT.fetch_add(1, Ordering::Relaxed);
+}
 /// like set_case, but the text is written into the existing buffer by `f` (no allocation; for suites with millions of cases)
 pub fn set_case_with(f: impl FnOnce(&mut String)) {
     CASE_IS_BYTES.store(0, Ordering::Relaxed);
@@ -70,6 +89,14 @@ pub fn give_up(reason: &str) -> ! {
                 args.extend(s.args());
             }
             from_bytes = format!("{}\x1f{} input {:?} under {:?}\x1f{}", c.check, c.name, show(&c.input), c.sched, args.join("\x1e"));
+        }
+    }
+    if CASE_IS_BYTES.load(Ordering::Relaxed) == 2 {
+        if let Ok(c) = CASE_RAW.try_lock() {
+            if let Some(f) = c.fmt {
+                let (check, desc, args) = f(&c.bytes, &c.nums);
+                from_bytes = format!("{}\x1f{}\x1f{}", check, desc, args.join("\x1e"));
+            }
         }
     }
     let g = CURRENT.try_lock();
